@@ -12,6 +12,9 @@ use serde_json::{json, Value};
 
 const TOL_PURE: f64 = 1e-6;
 const TOL_MIX: f64 = 1e-4;
+/// the cubic form is a finite-difference third derivative taken in the harness: its own error
+/// reaches 2e-4 for strongly polar pairs (1 case in 1.2e5); seeded slips give >= 3e-2
+const TOL_CUBIC: f64 = 1e-3;
 
 /// scaled derivatives of the pressure at a state: (V dp/dV / p_scale, V^2 d2p/dV2 / p_scale)
 /// with p_scale = rho k T (the pressure itself can be small)
@@ -226,7 +229,7 @@ fn pr_triples(m: &mut Monitor, cfg: &Config) {
 
 fn mixtures(m: &mut Monitor, cfg: &Config) {
     let col = Collections::load();
-    let n = cfg.tier.pick(1200, 40_000);
+    let n = cfg.tier.pick(1200, 120_000);
     let idx: Vec<u64> = (0..n).collect();
     par_cases(m, &idx, |m, _, &i| {
         let mut rng = Rng::derive(cfg.seed, "c06-mix", i);
@@ -261,7 +264,7 @@ fn mixtures(m: &mut Monitor, cfg: &Config) {
                     // cross-association, finding F26 of C09) says nothing about the returned point
                     m.skip("mixture:cubic form=0", "recomputation not finite at a neighbouring composition (unresolved)");
                 } else {
-                    m.check("mixture:cubic form=0", &sig("cubic form"), case, c.abs(), TOL_MIX, || info.clone());
+                    m.check("mixture:cubic form=0", &sig("cubic form"), case, c.abs(), TOL_CUBIC, || info.clone());
                 }
                 let pcrit = s.pressure(Contributions::Total).to_reduced();
                 // positive pressure is only stated for pure substances; mixture critical points
@@ -310,7 +313,7 @@ fn mixtures(m: &mut Monitor, cfg: &Config) {
                         m.case(&format!("binary-T:{fam}"), hash_f64s(&spec.label(), &[t]), true);
                         m.check("binary:given T echoed", &sig("binary T"), case + 2, (s.temperature.to_reduced() / t - 1.0).abs(), 1e-14, || info.clone());
                         if let Some((lam, c, _)) = mixture_criticality(&s) {
-                            m.check("binary:criticality at given T", &sig("binary T criticality"), case + 2, lam.abs().max(c.abs()), TOL_MIX, || json!({"model": spec, "T": t, "lambda": lam, "cubic": c, "x": s.molefracs.to_vec()}));
+                            m.check("binary:criticality at given T", &sig("binary T criticality"), case + 2, lam.abs().max(c.abs() * (TOL_MIX / TOL_CUBIC)), TOL_MIX, || json!({"model": spec, "T": t, "lambda": lam, "cubic": c, "x": s.molefracs.to_vec()}));
                         }
                         // and at the pressure of that point
                         let p = s.pressure(Contributions::Total);
@@ -319,7 +322,7 @@ fn mixtures(m: &mut Monitor, cfg: &Config) {
                             let p2 = s2.pressure(Contributions::Total).to_reduced();
                             m.check("binary:given p reproduced", &sig("binary p"), case + 3, (p2 / p.to_reduced() - 1.0).abs(), 1e-7, || info.clone());
                             if let Some((lam, c, _)) = mixture_criticality(&s2) {
-                                m.check("binary:criticality at given p", &sig("binary p criticality"), case + 3, lam.abs().max(c.abs()), TOL_MIX, || json!({"model": spec, "lambda": lam, "cubic": c}));
+                                m.check("binary:criticality at given p", &sig("binary p criticality"), case + 3, lam.abs().max(c.abs() * (TOL_MIX / TOL_CUBIC)), TOL_MIX, || json!({"model": spec, "lambda": lam, "cubic": c}));
                             }
                         }
                     } else {
